@@ -1,7 +1,7 @@
 (* Router/StartupProofs.v — proofs about Router/Startup.v (C18: failed start-up releases in order, no nil call). *)
 From Mos Require Import Base.Prelude Router.Startup.
 
-Fixpoint regs (b : bool) (off : nat) (pre : list istep) (r : rt) : rt :=
+Fixpoint regs (b : bool) (off : nat) (pre : list istep) (r : su_rt) : su_rt :=
   match pre with [] => r | s :: tl => regs b (S off) tl (reg b off s r) end.
 
 Lemma run_from_ok_prefix : forall pre b off r rest,
